@@ -103,6 +103,24 @@ Definition tr_opt_or {A} (a : option (list A)) (d : list A) : list A :=
   match a with Some (x :: v) => x :: v | _ => d end.
 Definition tr_or {A} (a d : list A) : list A := match a with [] => d | _ :: _ => a end.
 
+(** the truth value of an optional str/list as a narrowing test ([if x:], [a if x else b]): [Some] of the value where
+    Python takes the true branch (not None and not empty), [None] where it takes the false branch *)
+Definition tr_opt_truthy {A} (o : option (list A)) : option (list A) :=
+  match o with Some (x :: v) => Some (x :: v) | _ => None end.
+
+(** a dict with str keys as an association list in insertion order: [d.get(k)] and [d[k] = v]
+    (an existing key keeps its place, and its key object) *)
+Fixpoint tr_dict_get {V} (d : list (str * V)) (k : str) : option V :=
+  match d with
+  | [] => None
+  | (k', v) :: d => if str_eqb k' k then Some v else tr_dict_get d k
+  end.
+Fixpoint tr_dict_set {V} (d : list (str * V)) (k : str) (v : V) : list (str * V) :=
+  match d with
+  | [] => [(k, v)]
+  | (k', v') :: d => if str_eqb k' k then (k', v) :: d else (k', v') :: tr_dict_set d k v
+  end.
+
 (** Result of a translated METHOD: the object state reached is returned on normal return and on an exception alike
     (Python keeps the partial effects of a method that raises). *)
 Inductive mres (A S : Type) :=
@@ -114,3 +132,15 @@ Arguments MErr {A S} e s.
 (** a method call on a value that may be None: [None.m()] raises AttributeError (no such kind in [err]: OtherError) *)
 Definition tr_unwrap {A} (o : option A) : result A :=
   match o with Some a => Ok a | None => Err OtherError end.
+
+(** [a + b] on strings of which one may be None: [str + None] / [None + str] is a TypeError (both operands have
+    been evaluated by then) *)
+Definition tr_add_opt (a b : option str) : result str :=
+  match a, b with
+  | Some x, Some y => Ok (x ++ y)
+  | _, _ => Err TypeError
+  end.
+
+(** truth value of an optional str / list held in a state attribute: None and the empty value are falsy *)
+Definition tr_opt_nonempty {A} (o : option (list A)) : bool :=
+  match o with Some (_ :: _) => true | _ => false end.
